@@ -133,3 +133,33 @@ Definition fbandit_reward (A : list nat) (groups : list (list nat * list Q)) (jo
 Definition flattened_reward (A : list nat) (groups : list (list nat * list Q)) (helper : list nat) (a : nat)
   : Q * list nat :=
   let h := toFactorsOut A a helper in (fbandit_reward A groups h, h).
+
+(* ---- SparseCooperativeQLearning ---------------------------------------------------------------- *)
+(* src: Factored/MDP/Types.hpp:struct QFunctionRule {state, action, value} *)
+Record qrule := mkRule { rSK : list nat; rSV : list nat; rAK : list nat; rAV : list nat; rVal : Q }.
+
+(* rules_.filter(join(s, a)): the rules whose partial state and partial action both match *)
+Definition rule_matches (r : qrule) (s a : list nat) : bool :=
+  match_f_pf s (rSK r) (rSV r) && match_f_pf a (rAK r) (rAV r).
+
+(* src: SparseCooperativeQLearning.cpp:SparseCooperativeQLearning::stepUpdateQ with a1 =
+   policy_.sampleAction(s1) supplied by the caller.  An agent contained in no matching rule gets
+   rew/0 in C++ (inf/NaN), which no rule then reads; Coq's x/0 = 0 is equally unread. *)
+Definition sparse_step (nA : nat) (alpha gamma : Q) (rules : list qrule)
+                       (s a s1 a1 : list nat) (rew : list Q) : list qrule :=
+  let before := filter (fun r => rule_matches r s a) rules in
+  let after := filter (fun r => rule_matches r s1 a1) rules in
+  let cnt := fold_left (fun c r => fold_left (fun c' ag => vadd_at c' ag 1) (rAK r) c) before (repeat 0 nA) in
+  let per0 := vdiv rew cnt in
+  let per1 := fold_left (fun per r =>
+                 let val := gamma * rVal r / natQ (length (rAK r)) in
+                 fold_left (fun p ag => vadd_at p ag val) (rAK r) per) after per0 in
+  let per2 := fold_left (fun per r =>
+                 let val := - rVal r / natQ (length (rAK r)) in
+                 fold_left (fun p ag => vadd_at p ag val) (rAK r) per) before per1 in
+  let per3 := map (fun x => x * alpha) per2 in
+  map (fun r =>
+         if rule_matches r s a
+         then mkRule (rSK r) (rSV r) (rAK r) (rAV r)
+                     (Qred (rVal r + fold_left (fun u ag => u + nthq per3 ag) (rAK r) 0))
+         else r) rules.
